@@ -799,6 +799,12 @@ class Emitter:
             while i < len(self.used_funcs):
                 fn = self.used_funcs[i]
                 i += 1
+                if fn in getattr(self, 'cuts', ()):
+                    f = self.m.funcs[fn]
+                    rt = self.L.resolve(f['ret'])
+                    ret = 'return;' if rt[0] == 'void' else ('return (%s){0};' % self.ctype(f['ret']) if rt[0] in ('struct', 'array', 'vector') else 'return 0;')
+                    bodies.append('static ' + self.fn_sig(f) + ' { __CPROVER_assert(0, "SAFETY: cut function %s reached (declared unreachable for this harness)"); __CPROVER_assume(0); %s }' % (cname(fn), ret))
+                    continue
                 bodies.append(FnEmitter(self, self.m.funcs[fn]).emit())
             while gi < len(self.used_globals):
                 g = self.m.globals[self.used_globals[gi]]
@@ -815,15 +821,20 @@ class Emitter:
         out.append('int ll_eh_typeid(uint8_t* ti);')
         out.extend(self.alias_defs)
         out.extend(self.agg_defs)
+        # prototypes first: global initialisers (vtables) take addresses of functions
+        protos = []
+        for name in sorted(self.seen):
+            if name in self.m.decls and name not in self.m.funcs and not name.startswith('@llvm.'):
+                protos.append(self.fn_sig(self.m.decls[name], cname(name)) + ';')
+        for fn in self.used_funcs:
+            protos.append(('' if fn in self.roots else 'static ') + self.fn_sig(self.m.funcs[fn]) + ';')
+        out.extend(protos)
         # global forward declarations
         for name in self.used_globals:
             g = self.m.globals[name]
             out.append(self.global_decl(g, True))
         out.extend(gdefs)
         out.append('#include "stubs.h"')
-        # function prototypes (defined only; externals must come from stubs.h)
-        for fn in self.used_funcs:
-            out.append(('' if fn in self.roots else 'static ') + self.fn_sig(self.m.funcs[fn]) + ';')
         out.extend(bodies)
         return '\n'.join(out) + '\n'
 
@@ -1641,8 +1652,10 @@ def main():
     m = parse_module(src)
     argv = sys.argv[3:]
     exports = [a[7:] for a in argv if a.startswith('--type=')]
-    roots = ['@' + r if not r.startswith('@') else r for r in argv if not r.startswith('--type=')]
+    cuts = set('@' + a[6:] for a in argv if a.startswith('--cut='))
+    roots = ['@' + r if not r.startswith('@') else r for r in argv if not r.startswith('--')]
     e = Emitter(m, roots)
+    e.cuts = cuts
     for ex in exports:
         llname, alias = ex.split('=')
         ct = e.ctype(('named', llname))
